@@ -46,8 +46,8 @@ pub fn run(rep: &Report) {
     rep.assume("reference interpreter refegg.rs models subsumption as a sticky per-row bit and deletion as row removal");
     let st = stage();
     rep.run_regressions(&st);
-    rep.explore(&st, rep.tier.pick(6000, 100_000), 500);
+    rep.explore(&st, rep.tier.pick(12_000, 100_000), 500);
     let sd = stage_delete();
     rep.run_regressions(&sd);
-    rep.explore(&sd, rep.tier.pick(4000, 60_000), 500);
+    rep.explore(&sd, rep.tier.pick(8000, 60_000), 500);
 }
